@@ -232,7 +232,17 @@ func init() {
 				if !explore {
 					w.x = nil
 				}
-				sc.Px.ServeHTTP(w, httptest.NewRequest("GET", u, nil))
+				func() {
+					defer func() {
+						if rec := recover(); rec != nil {
+							if rec != http.ErrAbortHandler {
+								panic(rec)
+							}
+							w.code = -1 // the proxy aborted the response
+						}
+					}()
+					sc.Px.ServeHTTP(w, httptest.NewRequest("GET", u, nil))
+				}()
 			}
 			visit := func(x *vrt.X) bool {
 				r.Transitions++
